@@ -2,91 +2,41 @@
    inside one index domain, a step that starts without an accumulated error ends without one
    and its frame carries exactly the stored samples whose stamps lie in its view, in order. *)
 From Coq Require Import ZArith List Bool Lia Sorting.Sorted.
-From Synnax Require Import Cesium.Store Cesium.StoreProofs Cesium.IndexSearch Cesium.IndexSearchProofs
+From Synnax Require Import Cesium.LayoutOk Cesium.Store Cesium.StoreProofs Cesium.IndexSearch Cesium.IndexSearchProofs
      Cesium.Distance Cesium.Stamp Cesium.DomIterProofs Cesium.UnaryIter Cesium.UnaryIterViews
      Cesium.DistanceProofs Cesium.UnaryIterExact Cesium.SliceProofs Cesium.Read.
 Import ListNotations.
 Local Open Scope Z_scope.
 
 (* ---- the stored content of a channel as an association list ---- *)
-Definition stamps_of (P : list dom) : list Z := concat (map d_data P).
 Definition dom_assoc (Q : list Z) (d : dom) : assoc := combine (stamps_in (d_tr d) Q) (d_data d).
 Definition layout_assoc (P D : list dom) : assoc := flat_map (dom_assoc (stamps_of P)) D.
 
-(* a data domain inside one index domain, one sample per index stamp of its range *)
+(* a data domain whose range the index resolves (Distance counts its stamps), holding one
+   sample per index stamp of its range *)
 Definition within (P : list dom) (d : dom) : Prop :=
-  exists k q, znth P k = Some q /\
-              t_s (d_tr q) <= t_s (d_tr d) /\ t_e (d_tr d) <= t_e (d_tr q) /\
-              dlen d = zlen (stamps_in (d_tr d) (d_data q)).
-Definition layout_ok (P D : list dom) : Prop := ilay P /\ lay D /\ Forall (within P) D.
+  dist_ok P (t_s (d_tr d)) (t_e (d_tr d)) /\ dlen d = zlen (stamps_in (d_tr d) (stamps_of P)).
+Definition layout_ok (P D : list dom) : Prop := inc (stamps_of P) /\ lay D /\ Forall (within P) D.
 
 Definition frame_data (f : list series) : list Z := concat (map sr_data f).
 
-(* ---- stamps of the whole index restricted to a range inside one index domain ---- *)
 Lemma filter_none {A} (f : A -> bool) l : (forall x, In x l -> f x = false) -> filter f l = [].
 Proof.
   induction l as [|a l IH]; intros H; [reflexivity|]. simpl. rewrite (H a) by (left; reflexivity).
   apply IH. intros x Hx. apply H. right. exact Hx.
 Qed.
 
-Lemma stamps_in_concat t ls : stamps_in t (concat ls) = concat (map (stamps_in t) ls).
-Proof.
-  unfold stamps_in. induction ls as [|l ls IH]; [reflexivity|]. simpl. rewrite filter_app, IH. reflexivity.
-Qed.
-
-Lemma iwf_stamps q x : iwf q -> In x (d_data q) -> t_s (d_tr q) <= x < t_e (d_tr q).
-Proof. intros [_ F] H. rewrite Forall_forall in F. apply F, H. Qed.
-
-Lemma stamps_of_one P k q t : ilay P -> znth P k = Some q ->
-  t_s (d_tr q) <= t_s t -> t_e t <= t_e (d_tr q) ->
-  stamps_in t (stamps_of P) = stamps_in t (d_data q).
-Proof.
-  intros [HL HW] Hk H1 H2. destruct (znth_split P k q Hk) as (pre & post & -> & _).
-  destruct (lay_split pre q post HL) as (Lpre & Wq & Lpost & Bef & Aft).
-  apply Forall_app in HW. destruct HW as [Wpre Wqp]. apply Forall_cons_iff in Wqp. destruct Wqp as [Wq' Wpost].
-  unfold stamps_of. rewrite map_app, concat_app. cbn [map concat].
-  unfold stamps_in at 1. rewrite !filter_app. fold (stamps_in t (d_data q)).
-  assert (E1 : filter (contains_stamp t) (concat (map d_data pre)) = []).
-  { apply filter_none. intros x Hx. apply in_concat in Hx. destruct Hx as (l & Hl & Hx).
-    apply in_map_iff in Hl. destruct Hl as (p & <- & Hp).
-    rewrite Forall_forall in Wpre. pose proof (iwf_stamps p x (Wpre p Hp) Hx) as R.
-    specialize (Bef p Hp). unfold dbefore in Bef.
-    unfold contains_stamp. apply andb_false_iff. left. apply Z.leb_gt. lia. }
-  assert (E2 : filter (contains_stamp t) (concat (map d_data post)) = []).
-  { apply filter_none. intros x Hx. apply in_concat in Hx. destruct Hx as (l & Hl & Hx).
-    apply in_map_iff in Hl. destruct Hl as (p & <- & Hp).
-    rewrite Forall_forall in Wpost. pose proof (iwf_stamps p x (Wpost p Hp) Hx) as R.
-    specialize (Aft p Hp). unfold dbefore in Aft.
-    unfold contains_stamp. apply andb_false_iff. right. apply Z.ltb_ge. lia. }
-  rewrite E1, E2, app_nil_r. reflexivity.
-Qed.
-
 (* ---- per domain: what the step contributes is what the specification reads ---- *)
 Section PerDomain.
 Variable P : list dom.
 Variable var : bool.
-Hypothesis HP : ilay P.
+Hypothesis HP : inc (stamps_of P).
 Variable v : tr.
 Hypothesis Hv : t_s v < t_e v.
 
-Lemma within_facts d : within P d -> t_s (d_tr d) < t_e (d_tr d) ->
-  exists k q, znth P k = Some q /\ inc (d_data q) /\
-    t_s (d_tr q) <= t_s (d_tr d) /\ t_e (d_tr d) <= t_e (d_tr q) /\
-    dlen d = zlen (stamps_in (d_tr d) (d_data q)) /\
-    stamps_in (d_tr d) (stamps_of P) = stamps_in (d_tr d) (d_data q).
-Proof.
-  intros (k & q & Hk & H1 & H2 & H3) Hd. exists k, q.
-  assert (Wq : iwf q).
-  { destruct HP as [_ W]. rewrite Forall_forall in W. apply W.
-    unfold znth in Hk. destruct (k <? 0); [discriminate|]. eapply nth_error_In; eauto. }
-  repeat split; try assumption; [apply Wq|].
-  apply (stamps_of_one P k q (d_tr d) HP Hk); assumption.
-Qed.
-
 Lemma good_within d : within P d -> dwf d -> good P var v d.
 Proof.
-  intros W Wd Ov. destruct (within_facts d W Wd) as (k & q & Hk & Hi & H1 & H2 & H3 & _).
-  eexists. apply (dser_exact P var k q d (proj1 HP) Hk Hi Wd (conj H1 H2) H3 v Hv Ov).
+  intros (Wd1 & Wd2) Wd Ov. eexists. apply (dser_exact P var d Wd Wd1 Wd2 v Hv Ov).
 Qed.
 
 Lemma read_spec_combine S data t :
@@ -96,15 +46,15 @@ Proof. reflexivity. Qed.
 Lemma contrib_is_read d : within P d -> dwf d ->
   frame_data (contrib P var v d) = read_spec (dom_assoc (stamps_of P) d) v.
 Proof.
-  intros W Wd. destruct (within_facts d W Wd) as (k & q & Hk & Hi & H1 & H2 & H3 & HS).
-  unfold dom_assoc. rewrite HS. set (S := stamps_in (d_tr d) (d_data q)).
-  assert (IS : inc S) by (apply inc_filter; exact Hi).
+  intros (H1 & H3) Wd.
+  unfold dom_assoc. set (S := stamps_in (d_tr d) (stamps_of P)).
+  assert (IS : inc S) by (apply inc_filter; exact HP).
   assert (LS : length S = length (d_data d)) by (unfold S; unfold dlen, zlen in H3; lia).
   assert (INS : forall x, In x S -> t_s (d_tr d) <= x < t_e (d_tr d)).
   { intros x Hx. apply filter_In in Hx. destruct Hx as [_ C]. unfold contains_stamp in C.
     apply andb_true_iff in C. destruct C; zb. lia. }
   unfold contrib. destruct (overlaps (d_tr d) v) eqn:Ov.
-  - rewrite (dser_exact P var k q d (proj1 HP) Hk Hi Wd (conj H1 H2) H3 v Hv Ov).
+  - rewrite (dser_exact P var d Wd H1 H3 v Hv Ov).
     set (lo := Z.max (t_s (d_tr d)) (t_s v)). set (hi := Z.min (t_e (d_tr d)) (t_e v)).
     assert (FD : forall s, frame_data (nonempty_ser s) = sr_data s).
     { intros s. unfold nonempty_ser, frame_data. destruct (sr_data s) eqn:E; simpl; [reflexivity|]. rewrite E, app_nil_r. reflexivity. }
@@ -116,10 +66,10 @@ Proof.
       unfold S. rewrite (tr_eta (d_tr d)).
       rewrite !cnt_lt_stamps_in by (unfold lo, hi; lia).
       unfold offA, offB. fold lo hi.
-      replace (cnt_lt hi (d_data q) - cnt_lt (t_s (d_tr d)) (d_data q) - (cnt_lt lo (d_data q) - cnt_lt (t_s (d_tr d)) (d_data q)))
-        with (cnt_lt hi (d_data q) - cnt_lt lo (d_data q)) by lia.
-      replace (cnt_lt hi (d_data q) - cnt_lt (t_s (d_tr d)) (d_data q) - (cnt_lt lo (d_data q) - cnt_lt (t_s (d_tr d)) (d_data q)))
-        with (cnt_lt hi (d_data q) - cnt_lt lo (d_data q)) by lia.
+      replace (cnt_lt hi (stamps_of P) - cnt_lt (t_s (d_tr d)) (stamps_of P) - (cnt_lt lo (stamps_of P) - cnt_lt (t_s (d_tr d)) (stamps_of P)))
+        with (cnt_lt hi (stamps_of P) - cnt_lt lo (stamps_of P)) by lia.
+      replace (cnt_lt hi (stamps_of P) - cnt_lt (t_s (d_tr d)) (stamps_of P) - (cnt_lt lo (stamps_of P) - cnt_lt (t_s (d_tr d)) (stamps_of P)))
+        with (cnt_lt hi (stamps_of P) - cnt_lt lo (stamps_of P)) by lia.
       reflexivity.
     + intros [x y] Hxy. apply in_combine_l in Hxy. specialize (INS x Hxy). cbn [fst].
       unfold contains_stamp, lo, hi. cbn [t_s t_e]. zcases; cbn [andb]; try reflexivity; lia.
@@ -137,7 +87,7 @@ Proof. unfold frame_data. rewrite map_app, concat_app. reflexivity. Qed.
 Lemma read_spec_app a1 a2 t : read_spec (a1 ++ a2) t = read_spec a1 t ++ read_spec a2 t.
 Proof. unfold read_spec. rewrite filter_app, map_app. reflexivity. Qed.
 
-Lemma contribs_are_read P D var v : ilay P -> t_s v < t_e v -> Forall dwf D -> Forall (within P) D ->
+Lemma contribs_are_read P D var v : inc (stamps_of P) -> t_s v < t_e v -> Forall dwf D -> Forall (within P) D ->
   frame_data (contribs P var v D) = read_spec (layout_assoc P D) v.
 Proof.
   intros HP Hv W Wi. unfold contribs, layout_assoc.
@@ -173,7 +123,7 @@ Proof.
       (split; [reflexivity|]); rewrite read_spec_empty by lia; reflexivity.
   - assert (Hv : t_s (u_view i) < t_e (u_view i)) by lia.
     assert (G : Forall (good P var (u_view i)) D).
-    { apply Forall_forall. intros d Hd. apply (good_within P var HP (u_view i) Hv).
+    { apply Forall_forall. intros d Hd. apply (good_within P var (u_view i) Hv).
       - rewrite Forall_forall in HW. apply HW, Hd.
       - destruct HD as [W _]. rewrite Forall_forall in W. apply W, Hd. }
     cbv zeta. destruct fwd.
